@@ -940,6 +940,9 @@ fn match_ty<I: Interner>(
         | TyKind::Tuple(0, _) => {
             // These have no substitutions, so they are trivially WF
             builder.push_fact(WellFormed::Ty(ty.clone()));
+            // ... and they mention no type parameter, so they are fully visible
+            // as far as the orphan rules are concerned.
+            builder.push_fact(DomainGoal::IsFullyVisible(ty.clone()));
         }
         TyKind::Raw(mutbl, _) => {
             // forall<T> WF(*const T) :- WF(T);
@@ -1048,6 +1051,13 @@ fn match_ty<I: Interner>(
 
                 let tuple_ty = TyKind::Tuple(*len, substs.clone()).intern(interner);
                 let sized = builder.db.well_known_trait_id(WellKnownTrait::Sized);
+                // IsFullyVisible((T0, ..., Tn)) :- IsFullyVisible(T0), ..., IsFullyVisible(Tn)
+                builder.push_clause(
+                    DomainGoal::IsFullyVisible(tuple_ty.clone()),
+                    substs.iter(interner).map(|subst| {
+                        DomainGoal::IsFullyVisible(subst.assert_ty_ref(interner).clone())
+                    }),
+                );
                 builder.push_clause(
                     WellFormed::Ty(tuple_ty),
                     substs.as_slice(interner)[..*len - 1]
